@@ -7,8 +7,13 @@
 //   sampledpair <dt> <off|-> <s> <e> <incl|excl>   indexOf(s, e, RangeMatch)
 //   setpair <n> <s> <e> <mode> | dfpair <n> <s> <e> <mode> | rangepair <k> <t..> <s> <e> <mode>
 //   sampledvec <dt> <off|-> <mode> <m> <s1 e1 .. sm em>  the vector overload (m pairs)
+//   uvec s <dt> <off|-> <dimunit|-> <mode> <m> <s1 e1 u1 .. sm em um>   util::positionToIndex(starts, ends, units, mode, SampledDimension)
+//   uvec r <k> <t..> <dimunit|-> <mode> <m> <s1 e1 u1 ..>               the same on a RangeDimension
+//   upos s <dt> <off|-> <dimunit|-> <p> <unit> <rule> | upos r <k> <t..> <dimunit|-> <p> <unit> <rule>   the scalar overload with a unit
+//   stale <k> <t..> <k2> <t2..> <p> <rule>     a handle that has already converted positions must follow a tick change made through another handle
 // rules: L LE GE G EQ
 #include "common.hpp"
+#include <nix/util/dataAccess.hpp>
 #include <hdf5.h>
 
 using namespace nixv;
@@ -110,6 +115,55 @@ static std::string handle(const std::vector<std::string> &t) {
         std::string out = std::to_string(r.size());
         for (auto &x : r) out += " [" + showp(x) + "]";
         return out;
+    }
+    if (c == "uvec" || c == "upos") {
+        size_t at;
+        bool sampled = t[1] == "s";
+        if (sampled) {
+            set_sampled(t[2], t[3]);
+            at = 4;
+        } else {
+            size_t k = static_cast<size_t>(dec_int(t[2]));
+            std::vector<double> ticks;
+            for (size_t i = 0; i < k; i++) ticks.push_back(dec_dbl(t[3 + i]));
+            set_ticks(ticks);
+            at = 3 + k;
+        }
+        const std::string &du = t[at];
+        if (sampled) { if (du == "-") sd.unit(boost::none); else sd.unit(du); }
+        else { if (du == "-") rd.unit(boost::none); else rd.unit(du); }
+        if (c == "upos") {
+            double p = dec_dbl(t[at + 1]);
+            if (sampled) return show(nix::util::positionToIndex(p, t[at + 2], rule(t[at + 3]), sd));
+            return show(nix::util::positionToIndex(p, t[at + 2], rule(t[at + 3]), rd));
+        }
+        nix::RangeMatch rm = rmode(t[at + 1]);
+        size_t m = static_cast<size_t>(dec_int(t[at + 2]));
+        std::vector<double> s, e;
+        std::vector<std::string> u;
+        for (size_t i = 0; i < m; i++) {
+            s.push_back(dec_dbl(t[at + 3 + 3 * i])); e.push_back(dec_dbl(t[at + 4 + 3 * i])); u.push_back(t[at + 5 + 3 * i]);
+        }
+        auto r = sampled ? nix::util::positionToIndex(s, e, u, rm, sd) : nix::util::positionToIndex(s, e, u, rm, rd);
+        std::string out = std::to_string(r.size());
+        for (auto &x : r) out += " [" + showp(x) + "]";
+        return out;
+    }
+    if (c == "stale") {
+        size_t k = static_cast<size_t>(dec_int(t[1]));
+        std::vector<double> t1, t2;
+        for (size_t i = 0; i < k; i++) t1.push_back(dec_dbl(t[2 + i]));
+        size_t k2 = static_cast<size_t>(dec_int(t[2 + k]));
+        for (size_t i = 0; i < k2; i++) t2.push_back(dec_dbl(t[3 + k + i]));
+        double p = dec_dbl(t[3 + k + k2]);
+        nix::PositionMatch r = rule(t[4 + k + k2]);
+        ticks_set = false;
+        rd.ticks(t1);
+        nix::RangeDimension h1 = da_r.getDimension(1).asRangeDimension();     // a long-lived handle ...
+        (void) h1.indexOf(p, r); (void) h1.ticks(); (void) h1.axis(1, 0);      // ... that has already been used
+        nix::RangeDimension h2 = da_r.getDimension(1).asRangeDimension();
+        h2.ticks(t2);                                                          // the ticks change through another handle
+        return show(h1.indexOf(p, r)) + " | " + show(rd.indexOf(p, r));
     }
     throw std::logic_error("bad command " + c);
 }
